@@ -211,9 +211,33 @@ def run_rules(pid, repo, tier="quick", seed=0):
     except Exception as e:
         tb = traceback.format_exc().strip().splitlines()
         ctx.broken("internal-error", "engine", "-", "%s: %s (%s)" % (type(e).__name__, e, tb[-3].strip() if len(tb) >= 3 else ""))
+    _boolean_options_read_by_value(ctx)
     _unfollowed_helpers(ctx)
     _unanchored_functions(ctx)
     return ctx, mod
+
+
+def _boolean_options_read_by_value(ctx):
+    """Generic E-TYPE rule applied to every function a property's rules analysed: a std::optional<bool> is not tested for presence where its
+    value is never read (`if (flag_)` on an optional<bool> is true for an explicit `false`).  Every rule that reads a condition such as
+    `recursive_ && ...` or `... || alwaysContinue_` by its text relies on the flag being a plain bool there."""
+    from .rules.common import presence_tests_without_value_read
+    n = 0
+    try:
+        for usr in sorted(ctx.fns_analysed):
+            f = ctx.prog.fns.get(usr)
+            if f is None or f.kind == "lambda":
+                continue
+            n += 1
+            for g, i, et, rt in presence_tests_without_value_read(ctx.prog, f):
+                ctx.violation("option-value-is-read:%s:%s" % (f.pq.replace("Oomd::", ""), et.replace("this->", "")), "E-TYPE (presence test on a boolean option)", g.loc(i),
+                              "%s is a %s and is only ever tested for presence in %s: an explicitly configured `false` counts as true "
+                              "(the option's value is never read)" % (et, rt, f.pq))
+    except Exception as e:
+        ctx.broken("option-value-is-read", "engine", "-", "%s: %s" % (type(e).__name__, e))
+        return
+    if n:
+        ctx.ok("option-value-is-read", "E-TYPE (presence test on a boolean option)", "-", "no boolean option is tested for presence only in the %d functions analysed" % n)
 
 
 def _unanchored_functions(ctx):
